@@ -131,6 +131,8 @@ def make_cp_class(version, routes):
 
     def _after_body(self, name, kw, uid):
         spec = self._ov_specs[name]
+        if spec.get("sleep"):
+            self._ov_rec.log("after-done", name)
         passed = {k: v for k, v in kw.items() if not (k in spec["sig"]["optional"] and v is None)}
         self._ov_rec.log("after", name, copy.deepcopy(passed), uid)
         out = spec["out"]
@@ -205,7 +207,7 @@ class ScriptedClose(Exception):
     """stands for websockets' ConnectionClosed"""
 
 
-def observe_loop(version, routes, frames, exc_kind="closed", gate_held=False, async_validation=False):
+def observe_loop(version, routes, frames, exc_kind="closed", gate_held=False, async_validation=False, response_timeout=30):
     """Run the real start() on a scripted connection until recv raises; return the ordered
     recv/send/handler log and how start() ended."""
     import ocpp.messages as M
@@ -220,7 +222,7 @@ def observe_loop(version, routes, frames, exc_kind="closed", gate_held=False, as
     end = {}
 
     async def go():
-        cp = cls("cp", conn)
+        cp = cls("cp", conn, response_timeout=response_timeout)
         cp._ov_rec = rec
         if gate_held:
             await cp._call_lock.acquire()        # as if an own request were outstanding
